@@ -151,6 +151,9 @@ func execProj(c *Case) (r workerResult) {
 	core.VerifFileAccessObserver = func(op, path string) { acc = append(acc, op+":"+hxs(dp.rel(path))) }
 	defer func() { core.VerifFileAccessObserver = nil }()
 	rootAbs := filepath.Join(dp.projDir, c.Root)
+	if c.RootSpelling != "" {
+		rootAbs = dp.projDir + "/" + c.RootSpelling // not cleaned: the core sees the name as the caller spelled it
+	}
 	defer func() {
 		if x := recover(); x != nil {
 			r.Out = "PANIC"
@@ -201,7 +204,11 @@ func execProj(c *Case) (r workerResult) {
 
 func projLeanLine(c *Case) string {
 	var b strings.Builder
-	b.WriteString("proj " + hxs(c.Root))
+	if c.RootSpelling != "" {
+		b.WriteString("proj " + hxs(c.RootSpelling))
+	} else {
+		b.WriteString("proj " + hxs(c.Root))
+	}
 	names := sortedKeys(c.Files)
 	for _, n := range names {
 		b.WriteString(" " + hxs(n) + " F " + hx(c.Files[n]) + " " + oracleField(c, hxs(n)+"#"))
